@@ -42,6 +42,7 @@ func main() {
 	// encoder side
 	runBuildMatrix()
 	runConfigProduct()
+	runSpecialParity()
 	runCharacterSweeps()
 	runAllLengths()
 	flushMatrixFailures()
